@@ -20,11 +20,12 @@ type limitCase struct {
 	EOFWith  bool
 	FailAt   int
 	FailWith bool
+	FailErr  int   // which error value the source fails with (index into vk.FaultErrors)
 	Consumer []int // nil: io.ReadAll; [-1]: io.Copy
 }
 
 func (c limitCase) String() string {
-	return fmt.Sprintf("limit{N=%d len=%d chunks=%v eofWith=%v failAt=%d failWith=%v consumer=%v}", c.N, c.Len, c.Chunks, c.EOFWith, c.FailAt, c.FailWith, c.Consumer)
+	return fmt.Sprintf("limit{N=%d len=%d chunks=%v eofWith=%v failAt=%d failWith=%v failErr=%d consumer=%v}", c.N, c.Len, c.Chunks, c.EOFWith, c.FailAt, c.FailWith, c.FailErr, c.Consumer)
 }
 
 func data(n int, salt byte) []byte {
@@ -51,7 +52,8 @@ func consume(r io.Reader, consumer []int) ([]byte, error) {
 // checkLimit is the oracle for LimitReadCloser. It returns "" or a failure text.
 func checkLimit(c limitCase) string {
 	d := data(c.Len, 0x5a)
-	src := &vk.ScriptReader{Data: d, Chunks: c.Chunks, EOFWith: c.EOFWith, FailAt: c.FailAt, FailWith: c.FailWith}
+	injected := vk.FaultErrors[c.FailErr%len(vk.FaultErrors)]
+	src := &vk.ScriptReader{Data: d, Chunks: c.Chunks, EOFWith: c.EOFWith, FailAt: c.FailAt, FailWith: c.FailWith, Err: injected}
 	lr := streams.LimitReadCloser(src, c.N)
 	out, err := consume(lr, c.Consumer)
 	faulty := c.FailAt >= 0 && c.FailAt <= c.Len
@@ -88,13 +90,13 @@ func checkLimit(c limitCase) string {
 			return fmt.Sprintf("source fails at offset %d but stream ended in clean EOF after %d bytes", c.FailAt, len(out))
 		}
 		if int64(avail) <= c.N {
-			if !errors.Is(err, vk.ErrInjected) {
+			if !errors.Is(err, injected) {
 				return fmt.Sprintf("source error at %d (<= N) surfaced as %v", c.FailAt, err)
 			}
 			if !bytes.Equal(out, d[:avail]) {
 				return fmt.Sprintf("bytes before the source error lost: got %d want %d", len(out), avail)
 			}
-		} else if !errors.Is(err, vk.ErrInjected) && !errors.Is(err, streams.ErrStreamTooLarge) {
+		} else if !errors.Is(err, injected) && !errors.Is(err, streams.ErrStreamTooLarge) {
 			return fmt.Sprintf("unexpected error %v", err)
 		}
 	}
@@ -221,6 +223,7 @@ func TestLimitRapid(t *testing.T) {
 		if rapid.IntRange(0, 3).Draw(rt, "fault") == 0 {
 			c.FailAt = rapid.IntRange(0, L).Draw(rt, "failAt")
 			c.FailWith = rapid.Bool().Draw(rt, "failWith")
+			c.FailErr = rapid.IntRange(0, len(vk.FaultErrors)-1).Draw(rt, "failErr")
 		}
 		switch rapid.IntRange(0, 3).Draw(rt, "consumer") {
 		case 0:
